@@ -36,11 +36,19 @@ def _typed_coerce(
 _coerce_bool_node = _typed_coerce(bool, _ast.BooleanValue)
 
 
+def _parse_bool(value: Any) -> bool:
+    if value is True or value is False:
+        return value
+    raise ValueError(
+        "Boolean cannot represent a non boolean value: %r" % value
+    )
+
+
 Boolean = ScalarType(
     "Boolean",
     description="The `Boolean` scalar type represents `true` or `false`.",
     serialize=bool,
-    parse=bool,
+    parse=_parse_bool,
     parse_literal=_coerce_bool_node,
 )
 
@@ -106,6 +114,20 @@ def coerce_float(maybe_float: _ScalarValue) -> float:
         )
 
 
+def _parse_int(value: Any) -> int:
+    if isinstance(value, bool):
+        raise ValueError(INVALID_INT % value)
+    return coerce_int(value)
+
+
+def _parse_float(value: Any) -> float:
+    if isinstance(value, bool):
+        raise ValueError(
+            "Float cannot represent non numeric value: %s" % value
+        )
+    return coerce_float(value)
+
+
 _coerce_int_node = _typed_coerce(coerce_int, _ast.IntValue)
 _coerce_float_node = _typed_coerce(coerce_float, _ast.FloatValue, _ast.IntValue)
 
@@ -117,7 +139,7 @@ Int = ScalarType(
         "values. Int can represent values between -(2^31) and 2^31 - 1."
     ),
     serialize=coerce_int,
-    parse=coerce_int,
+    parse=_parse_int,
     parse_literal=_coerce_int_node,
 )
 
@@ -130,7 +152,7 @@ Float = ScalarType(
         "[IEEE 754](http://en.wikipedia.org/wiki/IEEE_floating_point)."
     ),
     serialize=coerce_float,
-    parse=coerce_float,
+    parse=_parse_float,
     parse_literal=_coerce_float_node,
 )
 
@@ -147,6 +169,12 @@ def _serialize_string(value: Any) -> str:
     return _parse_string(value)
 
 
+def _parse_string_input(value: Any) -> str:
+    if isinstance(value, (dict, bool)):
+        raise ValueError("String cannot represent value: %r" % value)
+    return _parse_string(value)
+
+
 _coerce_string_node = _typed_coerce(_parse_string, _ast.StringValue)
 
 
@@ -158,9 +186,18 @@ String = ScalarType(
         "GraphQL to represent free-form human-readable text."
     ),
     serialize=_serialize_string,
-    parse=_parse_string,
+    parse=_parse_string_input,
     parse_literal=_coerce_string_node,
 )  # type: ScalarType
+
+
+def _parse_id(value: Any) -> str:
+    if isinstance(value, str) or (
+        isinstance(value, int) and not isinstance(value, bool)
+    ):
+        return str(value)
+    raise ValueError("ID cannot represent value: %r" % value)
+
 
 _coerce_id_node = _typed_coerce(str, _ast.StringValue, _ast.IntValue)
 
@@ -176,7 +213,7 @@ ID = ScalarType(
         "an ID."
     ),
     serialize=str,
-    parse=str,
+    parse=_parse_id,
     parse_literal=_coerce_id_node,
 )
 
